@@ -91,6 +91,23 @@ class Resolver:
         return res
 
     def local_class(self, fi: FuncInfo, name: str) -> ClassInfo | None:
+        key = (fi.key, name)
+        if not hasattr(self, "_local_cache"):
+            self._local_cache = {}
+            self._local_busy = set()
+        if key in self._local_cache:
+            return self._local_cache[key]
+        if key in self._local_busy:
+            return None
+        self._local_busy.add(key)
+        try:
+            r = self._local_class(fi, name)
+        finally:
+            self._local_busy.discard(key)
+        self._local_cache[key] = r
+        return r
+
+    def _local_class(self, fi: FuncInfo, name: str) -> ClassInfo | None:
         a = fi.node.args
         for arg in a.posonlyargs + a.args + a.kwonlyargs:
             if arg.arg == name:
